@@ -38,9 +38,9 @@ enum TokPos {
     /// Position of a cursor inside a multiline token
     MultilineContent {
         /// Byte distance of the cursor from the next line break
-        reverse_col: u16,
+        reverse_col: u32,
         /// The number of line breaks between the cursor and the end of the token content
-        newlines_after_cursor: u16,
+        newlines_after_cursor: u32,
     },
 
     /// Position of a cursor in the whitespace before a token
@@ -149,10 +149,10 @@ impl LogicalLinesReconstructor for DelphiLogicalLinesReconstructor {
                             .map(|line| line.len())
                             .unwrap_or(content_after_cursor.len());
                         let newlines_after_cursor =
-                            (content_after_cursor.split('\n').count() - 1) as u16;
+                            (content_after_cursor.split('\n').count() - 1) as u32;
 
                         TokPos::MultilineContent {
-                            reverse_col: reverse_col as u16,
+                            reverse_col: reverse_col as u32,
                             newlines_after_cursor,
                         }
                     } else {
@@ -340,7 +340,7 @@ impl CursorTracker for CursorTrackerImpl<'_> {
                 } => {
                     let lines = tok.get_content().rsplit('\n');
                     let offset_from_end = lines
-                        .take(newlines_after_cursor.into())
+                        .take(newlines_after_cursor as usize)
                         // +1 for the separator
                         .map(|line| line.len() + 1)
                         .sum::<usize>()
